@@ -28,7 +28,7 @@ ALPHABET = "a1 .,-_/()'+#:"
 
 def ids(tier: str) -> List[str]:
     out = [''] + list(ALPHABET) + [a + b for a in ALPHABET for b in ALPHABET]
-    out += ['a  b', 'a   b', '1  ', '  1', "Board 12 (A/B) #3: x+y, z_w - 'q'.", '12', 'Z9']
+    out += ['a  b', 'a   b', '1  ', '  1', "Board 12 (A/B) #3: x+y, z_w - 'q'.", '12', 'Z9', '0', '00', '07', '007', '0012', '10', '1.0', '1e3', '+7', '-1', '0x1', 'None', 'null', 'True']
     if tier == 'thorough':
         out += [a + b + c for a in "a .:" for b in ALPHABET for c in "1 -'"]
     return out
@@ -232,6 +232,12 @@ def cases(tier: str, seed: int):
         J.append(([mk_board(i, seed + 1, dda=d) for i, d in enumerate(pat)], 'with', 'dda'))
     for d, v in itertools.product(SEATS, VULS):
         J.append(([mk_board(0, seed, dealer=d, vul=v)], 'with', 'dealer-vul'))
+    # unusual but valid double-dummy tables: empty table, a declarer with an empty row, only some declarers, all zeros
+    full = scen.dda_from_seed(seed)
+    for k, dda in enumerate(({}, {'N': full['N'], 'E': {}}, {'S': full['S']}, {p: {s_: 0 for s_ in r} for p, r in full.items()}, {'W': {'NT': 13}})):
+        b0 = mk_board(0, seed + 3)
+        b0['dda'] = dda
+        J.append(([b0, mk_board(1, seed + 3, dda=True)], 'with' if k % 2 else 'manual', 'dda-shape'))
     for x in ids(tier):
         J.append(([mk_board(0, seed + 2, bid=x, dda=True), mk_board(1, seed + 2, bid=x + x)], 'manual', 'id'))
     # boards that share an id are still separate boards
